@@ -6,11 +6,18 @@
    Draw  fmt stride col row w h cells pad pre post
          one region drawn into a fresh canvas of the documented size (rowstride * h * cell height bytes) that
          was filled with a guard pattern and lies between two guard bands.  Projection to cells: cells[i][j] =
+         (or uni = the mark of all cells when they are all alike)
          "G" the pixel block equals the block the library's full-page rendering (same format, reveal, flash)
          shows for page cell (row + i, col + j), "U" the guard pattern is intact, "X" anything else;
          pad[i] = "U" / "X" for the bytes between the end of the region's pixel rectangle and the next line
          (stride exact: none; plus5 / plus8: 5 / 8 bytes; full: the rest of a page-wide image);  pre / post =
          number of modified bytes in the guard bands before / after the canvas.
+   Pages and regions generated from the edge pages of MC_CanvasCells (Gen_CanvasCells) carry the model page with its geometry
+   (Page: m = [rows, cols, fr, fc, sz]) and the model region (Draw: mrg = [col, row, w, h]).  For these the trace
+   specification first verifies the correspondence the generator relies on - the real page is the model page with the filler
+   row / column stretched (Abstracts), the real region's edges lie in the rows / columns the model region's edges stand for
+   (RegionMaps) and the real region cuts a character iff the model region does; a failure is reported with class "binding"
+   (the case that ran is not the case TLC enumerated: the check is broken, not the library).
    A Draw line is accepted iff the observation equals CanvasCells!Post applied to a fresh canvas: nothing
    outside the region's rectangle is touched (any region, stride, format), an unsupported format touches
    nothing at all, and a region that does not cut a double width / double size character shows, cell by
@@ -22,40 +29,65 @@
 EXTENDS MC_CanvasCells, Json, IOUtils
 
 Log == ndJsonDeserialize(IOEnv.TRACEFILE)
-VARIABLES l, page, nbad
-tvars == <<l, page, nbad, vars>>
+VARIABLES l, model, nbad                   \* (the current page is the variable page of CanvasCells)
+tvars == <<l, model, nbad, vars>>
 Ev == Log[l]
 NoPage == [rows |-> 0, cols |-> 0, sz |-> <<>>]
+NoModel == [rows |-> 0, cols |-> 0, fr |-> 0, fc |-> 0, sz |-> <<>>]
+
+\* ---- correspondence between a real page and the edge page it was generated from (geometry g = the model record itself)
+\* index i of n real rows (columns) -> index in the model with m rows (columns) and filler f
+MapIx(i, n, m, f) == IF i < f THEN i ELSE IF i > n - (m - f) THEN m - (n - i) ELSE f
+Abstracts(g, p) == /\ p.rows >= g.rows /\ p.cols >= g.cols /\ Len(g.sz) = g.rows * g.cols
+                   /\ \A i \in 1..p.rows : \A j \in 1..p.cols :
+                        Sz(p, i, j) = g.sz[(MapIx(i, p.rows, g.rows, g.fr) - 1) * g.cols + MapIx(j, p.cols, g.cols, g.fc)]
+RegionMaps(g, p, rg, mrg) == /\ MapIx(rg.col, p.cols, g.cols, g.fc) = mrg[1] /\ MapIx(rg.col + rg.w - 1, p.cols, g.cols, g.fc) = mrg[1] + mrg[3] - 1
+                             /\ MapIx(rg.row, p.rows, g.rows, g.fr) = mrg[2] /\ MapIx(rg.row + rg.h - 1, p.rows, g.rows, g.fr) = mrg[2] + mrg[4] - 1
+                             /\ CutsBorder(p, rg) = Cuts([rows |-> g.rows, cols |-> g.cols, sz |-> g.sz], [col |-> mrg[1], row |-> mrg[2], w |-> mrg[3], h |-> mrg[4]])
 
 \* the region in the model's coordinates (from 1)
 Rg(ev) == [col |-> ev.col + 1, row |-> ev.row + 1, w |-> ev.w, h |-> ev.h]
+\* the marks of the region's cells: a matrix, or (lossless shorthand of the recorder) uni = the mark all cells have
+Uniform(ev) == "uni" \in DOMAIN ev
+Shape(ev) == /\ Len(ev.pad) = ev.h
+             /\ ~Uniform(ev) => Len(ev.cells) = ev.h /\ \A i \in 1..ev.h : Len(ev.cells[i]) = ev.w
+
 \* the observation the specification predicts for cell (i, j) of the region's canvas
 Expect(p, ev, i, j) == PostMark(p, Rg(ev), ev.fmt, Rg(ev).row + i - 1, Rg(ev).col + j - 1)
-Shape(ev) == Len(ev.cells) = ev.h /\ Len(ev.pad) = ev.h /\ \A i \in 1..ev.h : Len(ev.cells[i]) = ev.w
-
+\* (every cell of a log line lies in the region, where PostMark does not depend on the cell: uniform lines are compared once)
+AllAsExpected(p, ev) == IF Uniform(ev) THEN ev.uni = Expect(p, ev, 1, 1)
+                        ELSE \A i \in 1..ev.h : \A j \in 1..ev.w : ev.cells[i][j] = Expect(p, ev, i, j)
 Verdict(p, ev) ==
   IF ~RegionOK(p, Rg(ev)) \/ ~Shape(ev) THEN "malformed"
+  ELSE IF "mrg" \in DOMAIN ev /\ (model.rows = 0 \/ ~RegionMaps(model, p, Rg(ev), ev.mrg)) THEN "region-is-not-the-modelled-one"
   ELSE IF ev.pre # 0 THEN "outside:before-canvas"                        \* Frame: nothing outside the region's rectangle
   ELSE IF ev.post # 0 THEN "outside:after-canvas"
   ELSE IF \E i \in 1..ev.h : ev.pad[i] # "U" THEN "outside:line-padding"
   ELSE IF ~Supported(ev.fmt)
-       THEN (IF \A i \in 1..ev.h : \A j \in 1..ev.w : ev.cells[i][j] = "U" THEN "ok" ELSE "unsupported-format-drew")
-  ELSE IF Cuts(p, Rg(ev)) THEN "ok"
-  ELSE IF \A i \in 1..ev.h : \A j \in 1..ev.w : ev.cells[i][j] = Expect(p, ev, i, j) THEN "ok"
+       THEN (IF AllAsExpected(p, ev) THEN "ok" ELSE "unsupported-format-drew")
+  ELSE IF CutsBorder(p, Rg(ev)) THEN "ok"                                    \* (= Cuts, ASSUME MarksOK)
+  ELSE IF AllAsExpected(p, ev) THEN "ok"
   ELSE "cells-differ-from-full-page"
 
 \* (the pages of the decoder need not be WellFormed: enhancement data can leave continuation cells without an anchor; Post, Cuts
 \* and the frame condition are meaningful for any arrangement of sizes)
 TPage == /\ Ev.a = "Page" /\ Len(Ev.sz) = Ev.rows * Ev.cols
-         /\ page' = [rows |-> Ev.rows, cols |-> Ev.cols, sz |-> Ev.sz] /\ UNCHANGED nbad
-TDraw == /\ Ev.a = "Draw" /\ page.rows > 0 /\ UNCHANGED page
+         /\ LET np == [rows |-> Ev.rows, cols |-> Ev.cols, sz |-> Ev.sz]
+                nm == IF "m" \in DOMAIN Ev THEN Ev.m ELSE NoModel IN
+            /\ page' = np /\ model' = nm
+            /\ IF nm.rows > 0 /\ ~Abstracts(nm, np)
+               THEN PrintT(<<"TV-BAD", l, "page-is-not-the-modelled-one", "binding">>) /\ nbad' = nbad + 1
+               ELSE UNCHANGED nbad
+TDraw == /\ Ev.a = "Draw" /\ page.rows > 0 /\ UNCHANGED <<page, model>>
          /\ LET v == Verdict(page, Ev) IN
             /\ IF v = "ok" THEN TRUE
-               ELSE PrintT(<<"TV-BAD", l, v, IF RegionOK(page, Rg(Ev)) /\ Cuts(page, Rg(Ev)) THEN "cut" ELSE "whole">>)
+               ELSE PrintT(<<"TV-BAD", l, v, IF v = "region-is-not-the-modelled-one" THEN "binding"
+                                              ELSE IF RegionOK(page, Rg(Ev)) /\ CutsBorder(page, Rg(Ev)) THEN "cut" ELSE "whole">>)
             /\ nbad' = nbad + (IF v = "ok" THEN 0 ELSE 1)
 
-TInit == l = 1 /\ page = NoPage /\ nbad = 0 /\ Init
-TNext == l <= Len(Log) /\ l' = l + 1 /\ (TPage \/ TDraw) /\ UNCHANGED vars
+TInit == /\ l = 1 /\ page = NoPage /\ model = NoModel /\ nbad = 0 /\ canvas = <<>> /\ ndraw = 0
+         /\ last = [rg |-> [col |-> 1, row |-> 1, w |-> 1, h |-> 1], fmt |-> "none", stride |-> "none"]
+TNext == l <= Len(Log) /\ l' = l + 1 /\ (TPage \/ TDraw) /\ UNCHANGED <<canvas, ndraw, last>>
 TSpec == TInit /\ [][TNext]_tvars
 AllAccepted == l = Len(Log) + 1 => nbad = 0
 TraceAccepted == LET n == TLCGet("stats").diameter - 1 IN
